@@ -19,7 +19,7 @@ CLAIMS = {
  "C06": ("Unconditional theorems: a refused record/write leaves the entire caller-side state identical and produces no effect (hence nothing later can differ); a refused multi-entry append equals appending the accepted prefix; the store refuses exactly what the reference log refuses. Differential histories with 20% refused operations, stat and resident cache set compared before/after every refused call, then flush + restart.",
          COMMON_NOTE, "Coq proof (state equality) + differential histories with refused writes", "DESIGN 5/C06"),
  "C07": ("The property is false of the code in one class (known finding F2, carried as a machine-checked witness `C07_refuted_live`: a Raft-legal history under a zero-item cache after which a live entry is unreadable). Positive theorem outside the class: for ANY cache limits (0 included), any chunk limits, drains and worker progress at any call boundary, if every appended log id is above every eviction boundary in force or still to be installed, the run never panics and every range read and the snapshot iteration return exactly the reference log's entries; a second witness shows the class cannot be narrowed to the boundary in force. Ties: lock-step histories under tiny caches with reads, snapshot iteration, drains and restarts; gated traces with reads while requests are buffered / queued / written / synced / evicted; every read item compared with the reference log; failures inside the known class are reported as KNOWN-FINDING.",
-         COMMON_NOTE + "Partial: the theorem is on the L1 system (worker steps at call granularity); worker interleavings inside calls and concurrent reader threads are covered by the gated traces only (a read takes &self and mutates only counters). Restarts are covered by the checks, not by the theorem.",
+         COMMON_NOTE + "The theorem is proved on the sequential system (worker progress at call boundaries) and on the small-step system (every interleaving, failures, worker death; between API calls). Partial: concurrent reader threads are not modelled (a read takes &self and mutates only atomic counters); restarts are covered by the checks, not by the theorem.",
          "Coq proof outside a machine-checked refuted class + differential histories and gated traces", "DESIGN 5/C07"),
  "C08": ("Theorems (same small-step model, any interleaving/batching/failures): a chunk file that is gone was requested by a flush whose journal end (behind the purge record) is durable in the files that remain; the files present are always a contiguous run in creation order of the files ever created (oldest-first, no holes); without failures every requested removal is carried out once the worker has caught up; exactly the closed chunks whose closing last id is <= the purge point are requested; under a Raft-legal history every live entry's chunk file exists (between API calls). K-trace with purge-heavy schedules and failures; unlink order checked on traces; snapshots after unlinks cut to their synced bytes must recover a prefix of the history.",
          COMMON_NOTE + "Partial w.r.t. the OS (fdatasync/unlink durability and ordering assumed). Interpretation: 'holding nothing above the purge point' is read on the chunk's closing last id (what pop_obsolete tests).",
